@@ -252,6 +252,17 @@ def profile(kind, c):
                     setup=[], extra=70, mem=1024)
     if kind == "R":    # content callback fails in the middle of the body -> close
         return dict(req=G, setup=["resp %d kind=cb-known size=20 cbmax=4 cberr=8" % rid, "beh %d 0 l=r%d" % (c, rid)], extra=6)
+    P1 = b"POST /p HTTP/1.1\r\nHost: a\r\nContent-Length: 5\r\n\r\nhello"
+    if kind == "2":    # two pipelined requests (HTTP/1.1 keep-alive): both must be answered although the client then stays silent
+        return dict(req=G + G, setup=[], extra=4, nreq=2, bounds=[len(G)])
+    if kind == "3":    # three pipelined requests
+        return dict(req=G + G + G, setup=[], extra=8, nreq=3, bounds=[len(G), 2 * len(G)])
+    if kind == "D":    # first reply from a content callback that is not ready twice (chunked), second request already buffered
+        return dict(req=G + G, setup=["resp %d kind=cb-unknown size=10 cbnr=2" % rid, "beh %d 0 l=r%d" % (c, rid)], extra=8, nreq=2, bounds=[len(G)])
+    if kind == "B":    # upload consumed 2 bytes per call, then a pipelined GET
+        return dict(req=P1 + G, setup=["beh %d 0 u=2" % c], extra=10, nreq=2, bounds=[len(P1)])
+    if kind == "l":    # pipelined pair, the handler of the second request suspends at its final call (late reply)
+        return dict(req=G + G, setup=["beh %d 1 l=s9999" % c], suspends=True, extra=4, nreq=2, bounds=[len(G)])
     if kind == "W":    # handler not ready: no reply for ever (busy loop by design, hint stays 0); never counted as awaiting
         return dict(req=G, setup=["beh %d 0 l=no" % c], extra=0)
     raise ValueError(kind)
@@ -270,11 +281,12 @@ class Case:
       back at its loop head.  Every event ends with one event-loop round.  After the
       events the application keeps calling the loop as the API demands (`drain`)."""
 
-    def __init__(self, name, mode, profs, events, drain=24, timeout=0, strict=False, suspend=1, cut=None):
+    def __init__(self, name, mode, profs, events, drain=24, timeout=0, strict=False, suspend=1, cut=None, split=None):
         self.name, self.mode, self.profs, self.events, self.drain, self.timeout = name, mode, profs, events, drain, timeout
         self.suspend = suspend    # MHD_ALLOW_SUSPEND_RESUME (implies the inter-thread channel: add/resume make a watched fd readable)
         self.strict = strict      # the application calls the loop only when the API obliges it to (timeout known or watched fd ready)
         self.P = [profile(k, c) for c, k in enumerate(profs)]
+        self.split = split        # where actions q / r of connection 0 split its request bytes (default: in the middle)
         self.cut = cut            # connection 0 sends only the first `cut` bytes of its request (prefix sweeps); then it is
         if cut is not None:       # not known to be complete: only the cross-back-end comparison judges it
             self.P[0] = dict(self.P[0], req=self.P[0]["req"][:cut], incomplete=True)
@@ -282,7 +294,11 @@ class Case:
     def key(self):
         return "%s|%s|%s|%d%s%s%s" % (self.mode, "".join(self.profs), " ".join("".join(e) for e in self.events), self.timeout,
                                       "s" if self.strict else "", "" if self.suspend else "n",
-                                      "" if self.cut is None else "c%d" % self.cut)
+                                      ("" if self.cut is None else "c%d" % self.cut) + ("" if self.split is None else "p%d" % self.split))
+
+    def split_at(self, c):
+        n = len(self.P[c]["req"])
+        return self.split if (c == 0 and self.split is not None and 0 < self.split < n) else n // 2
 
     def lines(self):
         mem = max([p.get("mem", 0) for p in self.P] + [0])
@@ -307,9 +323,9 @@ class Case:
                     out.append("race %d" % c)
                     out.append("send %d %s" % (c, hx(req)))
                 elif a == "q":
-                    out.append("send %d %s" % (c, hx(req[:len(req) // 2])))
+                    out.append("send %d %s" % (c, hx(req[:self.split_at(c)])))
                 elif a == "r":
-                    out.append("send %d %s" % (c, hx(req[len(req) // 2:])))
+                    out.append("send %d %s" % (c, hx(req[self.split_at(c):])))
                 elif a == "X":
                     out.append("cclose %d" % c)
                 elif a == "W":
@@ -634,6 +650,7 @@ def tpc_segments(items):
 # ------------------------------------------------------------------ law monitor (what the theorems assume of `Ops`)
 
 ST_CLOSED = 22          # refreshed from Gen by law_monitor's caller (Spec.build)
+ST_INIT = 0
 ELI = {"read": 1, "write": 2, "process": 4, "processRead": 5, "cleanup": 8}
 TABLE = {}              # state -> event_loop_info MHD_connection_update_event_loop_info must leave (from Gen)
 
@@ -647,6 +664,8 @@ def law_monitor(items, tmo0=True):
       read_force  handle_read (socket_error = true) leaves the connection closed;
       idle_table  after handle_idle an active connection's event_loop_info is the one its state calls for (sending states
                   WRITE, "unready"/full-request states PROCESS, line/header receiving states READ; table from Gen);
+      idle_buffered after handle_idle an active connection in state INIT has an empty read buffer (bytes left over from the
+                  previous request have been looked at: buffered unexamined input is work that needs no network input);
       idle_quiet  handle_idle on a connection without pending work that is blocked on the network (no PROCESS bit, not
                   read-ready while waiting to read, not write-ready while waiting to write; monitored for the first
                   call on a connection in a round that is not in eready) leaves it blocked, or in a PROCESS state,
@@ -681,6 +700,10 @@ def law_monitor(items, tmo0=True):
                     # only for connections without pending work: not touched by read/write in this round, not in eready
                     if c not in touched and not (t0[3] & 4) and blocked(t0) and not (t1[2] & ELI["process"]) and not blocked(t1):
                         errs.append("idle_quiet: handle_idle turned the blocked connection c=%d into %s" % (c, t1))
+            if kind == "idle":
+                wb, tb = where_of(snap, c)
+                if wb == "A" and tb is not None and tb[1] == ST_INIT and len(tb) > 6 and tb[6]:
+                    errs.append("idle_buffered: handle_idle left c=%d in state INIT (waiting for the client) with unexamined bytes in its read buffer" % c)
             touched.add(c)
             if kind == "read" and arg == 1:
                 w1, t1 = where_of(snap, c)
@@ -691,6 +714,63 @@ def law_monitor(items, tmo0=True):
 
 
 # ------------------------------------------------------------------ independent oracle (harness log only)
+
+def reply_end(data, pos=0, head=False):
+    """end offset of the first complete HTTP/1.1 reply (after any 1xx interim replies) in data[pos:], or None"""
+    while True:
+        k = data.find(b"\r\n\r\n", pos)
+        if k < 0:
+            return None
+        headp = data[pos:k].split(b"\r\n")
+        m = re.match(rb"HTTP/1\.[01] (\d\d\d)", headp[0])
+        if not m:
+            return None
+        code = int(m.group(1))
+        body = k + 4
+        if 100 <= code < 200 and code != 101:
+            pos = body
+            continue
+        hd = {}
+        for h in headp[1:]:
+            n, _, v = h.partition(b":")
+            hd[n.strip().lower()] = v.strip().lower()
+        if head or code in (204, 304):
+            return body
+        if b"chunked" in hd.get(b"transfer-encoding", b""):
+            q = body
+            while True:
+                e = data.find(b"\r\n", q)
+                if e < 0:
+                    return None
+                try:
+                    n = int(data[q:e].split(b";")[0], 16)
+                except ValueError:
+                    return None
+                if n == 0:
+                    t = data.find(b"\r\n\r\n", e)      # end of the (possibly empty) trailer section
+                    return None if t < 0 else t + 4
+                q = e + 2 + n + 2
+                if q > len(data):
+                    return None
+        if b"content-length" in hd:
+            try:
+                end = body + int(hd[b"content-length"])
+            except ValueError:
+                return None
+            return end if len(data) >= end else None
+        return None     # delimited by close only
+
+
+def replies_complete(data, head=False):
+    """number of complete replies in the bytes the client received"""
+    n, pos = 0, 0
+    while pos < len(data):
+        e = reply_end(data, pos, head)
+        if e is None:
+            break
+        n += 1; pos = e
+    return n
+
 
 def reply_complete(data, head=False):
     """is `data` (bytes the client received) a complete HTTP/1.1 reply (after any 1xx interim replies)?"""
@@ -756,6 +836,9 @@ def oracle(case, items):
     errs = []
 
     def served(c):
+        k = case.P[c].get("nreq", 1)      # pipelined requests: every one of them must be answered (or the connection closed)
+        if k > 1:
+            return gone[c] or replies_complete(wire[c], case.P[c].get("head", False)) >= k
         return gone[c] or reply_complete(wire[c], case.P[c].get("head", False))
 
     def awaiting(c):
@@ -922,6 +1005,26 @@ def gen_directed():
     for tmo in (0, 5):      # connection timeouts: the thread's own deadline
         for profs, evs in ((["P"], [("A",), ("q",), ("-",), ("r",)]), (["G", "P"], [("A", "A"), ("Q", "q")]), (["K"], [("A",), ("q",)])):
             cases.append(Case("d", "tpc", profs, evs, drain=100, strict=True, timeout=tmo))
+    # pipelining: k complete requests delivered in one segment, or split anywhere (in particular at every request boundary), then
+    # silence — every request must be answered in every back-end; alone, next to other connections, with late replies
+    for mode in ("select", "epoll", "poll", "tpc"):
+        stricts = (False, True) if mode in ("select", "epoll") else (True,)
+        for strict in stricts:
+            for shape in "23DB":
+                cases.append(Case("p", mode, [shape], one, drain=100, strict=strict))
+            for profs, evs in ((["2", "C"], two_b), (["C", "2"], two), (["2", "2"], two_b), (["k", "3"], two_b), (["D", "G"], two),
+                               (["l"], [("A",), ("Q",), ("-",), ("U",)]), (["l", "2"], [("A", "A"), ("Q", "Q"), ("-", "-"), ("U", "-")]),
+                               (["2", "S"], [("A", "A"), ("Q", "Q"), ("-", "-"), ("-", "U")])):
+                cases.append(Case("p", mode, profs, evs, drain=100, strict=strict))
+        for shape in "23DB":
+            pr = profile(shape, 0)
+            n = len(pr["req"])
+            cuts = range(1, n) if shape in "23" else sorted({b + d for b in pr["bounds"] for d in (-2, -1, 0, 1, 2)} | {n // 2})
+            for p in cuts:
+                if 0 < p < n:
+                    cases.append(Case("p", mode, [shape], [("A",), ("q",), ("r",)], drain=100, strict=True, split=p))
+                    if p in pr["bounds"]:      # … and with idle rounds between the pieces
+                        cases.append(Case("p", mode, [shape], [("A",), ("q",), ("-",), ("r",)], drain=100, strict=(mode != "select"), split=p))
     for shape in "OUTo":
         full = len(profile(shape, 0)["req"])
         for n in range(1024 - 72, 1024 + 4):
@@ -935,7 +1038,7 @@ def gen_directed():
 
 def gen_random(rng, mode, nconn=None):
     n = nconn or rng.choice([1, 2, 2, 3, 3])
-    pool = "GGCcSLPKEHMmRWkpf" if mode != "tpc" else "GGCcSSLLPKEHMmRkp"    # (W spins by design: one thread at zero timeout for ever)
+    pool = "GGCcSLPKEHMmRWkpf23DBl" if mode != "tpc" else "GGCcSSLLPKEHMmRkp23DBl"    # (W spins by design: one thread at zero timeout for ever)
     small = rng.random() < 0.25
     if small:
         pool = "GCSOUNXMTkout"
@@ -1058,10 +1161,10 @@ class Spec:
         gen_loop()
 
     def build(self, ctx):
-        global ST_CLOSED, ELI, TABLE
+        global ST_CLOSED, ST_INIT, ELI, TABLE
         try:        # numeric codes the monitor and the oracle use to read the white-box snapshots: from the regenerated file
             g = dict(re.findall(r"def (\w+) : Nat := (\d+)", open(GEN_PATH).read()))
-            ST_CLOSED = int(g.get("stClosed", ST_CLOSED))
+            ST_CLOSED = int(g.get("stClosed", ST_CLOSED)); ST_INIT = int(g.get("stInit", ST_INIT))
             ELI = {"read": int(g["eliRead"]), "write": int(g["eliWrite"]), "process": int(g["eliProcess"]),
                    "processRead": int(g["eliProcessRead"]), "cleanup": int(g["eliCleanup"])}
             TABLE = {}
@@ -1191,6 +1294,9 @@ class Spec:
         pairs_sel = [(a, b) for a in "GCS" for b in "GCS"] if not thorough else [(a, b) for a in "GCSM" for b in "GCSM"]
         pairs_ep = [("G", "C"), ("C", "G"), ("C", "C"), ("S", "C"), ("C", "S"), ("G", "k"), ("k", "C")] if not thorough else \
             [(a, b) for a in "GCSk" for b in "GCSk"]
+        pipe_pairs = [("2", "C")] if not thorough else [("2", "C"), ("C", "2"), ("2", "S"), ("2", "2")]   # pipelined pair next to another connection
+        pairs_sel = pairs_sel + pipe_pairs + ([("C", "2")] if not thorough else [])
+        pairs_ep = pairs_ep + pipe_pairs
         exh = []
         for L in range(1, exh_len + 1):
             exh += list(gen_exhaustive("select", L, pairs_sel))
@@ -1198,11 +1304,13 @@ class Spec:
         for L in range(1, exh_len + 1):
             exh += list(gen_exhaustive("epoll", L, pairs_ep))
         pairs_poll = [("G", "C"), ("C", "G"), ("S", "C"), ("C", "S"), ("S", "S")] if not thorough else [(a, b) for a in "GCSk" for b in "GCSk"]
+        pairs_poll = pairs_poll + pipe_pairs
         npoll0 = len(exh)
         for L in range(1, exh_len + 1):      # the internal poll thread, driven in lock-step (it runs only when its poll() would return)
             exh += list(gen_exhaustive("poll", L, pairs_poll, strict=True))
         npoll = len(exh) - npoll0
         pairs_tpc = [("G", "C"), ("S", "C"), ("C", "S"), ("S", "S"), ("G", "S")] if not thorough else [(a, b) for a in "GCSk" for b in "GCSk"]
+        pairs_tpc = pairs_tpc + pipe_pairs
         ntpc0 = len(exh)
         for L in range(1, exh_len + 1):      # thread-per-connection, every thread driven in lock-step through the gated poll()
             exh += list(gen_exhaustive("tpc", L, pairs_tpc, strict=True))
@@ -1278,13 +1386,13 @@ def replay(ctx, path):
     lines = r["input"]
     # rebuild the Case from the recorded key
     det = r.get("detail", "")
-    m = re.search(r"case (\w+)\|(\w+)\|([^|]*)\|(\d+)(s?)(n?)(?:c(\d+))?", det)
+    m = re.search(r"case (\w+)\|(\w+)\|([^|]*)\|(\d+)(s?)(n?)(?:c(\d+))?(?:p(\d+))?", det)
     if not m:
         print("replay: cannot find the case key in the replay file"); return 2
     n = len(m.group(2))
     evs = [tuple(e) for e in m.group(3).split(" ") if e]
     cs = Case("replay", m.group(1), list(m.group(2)), evs, drain=100, timeout=int(m.group(4)), strict=bool(m.group(5)),
-              suspend=0 if m.group(6) else 1, cut=int(m.group(7)) if m.group(7) else None)
+              suspend=0 if m.group(6) else 1, cut=int(m.group(7)) if m.group(7) else None, split=int(m.group(8)) if m.group(8) else None)
     fl, st = [], {k: 0 for k in ("cases", "rounds", "calls", "rounds_with_close_or_suspend_and_survivor", "rounds_with_suspend",
                                  "rounds_with_new", "rounds_ending_in_process", "quiescent_reports", "oracle_violations", "diffs")}
     sp.run_batch([cs], fl, st)
